@@ -73,12 +73,24 @@ public:
     return KEYWORDS[_builtin];
   }
 
+  bool isStorage() const override
+  {
+    return (_builtin != BTM_COUNT && _exp != nullptr && _exp->isStorage());
+  }
+
   static int findBuiltinKeyword(const std::string& s);
 
   static MemberExpression * parse(Parser& p, Context& ctx, Expression * exp);
 
 protected:
   static void assertClosedMember(Parser& p, Context& ctx, const char * member);
+
+  /**
+   * Returns the value to be manipulated by a method working in place: the
+   * value of the expression, or a temporary copy when the expression hands
+   * through a value that it does not own (see Expression::isStorage).
+   */
+  Value& receiver(Context& ctx) const;
 
 private:
   static MemberExpression * parse_builtin(Parser&p, Context& ctx, Expression * exp);
